@@ -21,7 +21,7 @@ theorem infix_flatMap_of_mem {α β} (f : α → List β) : ∀ (l : List α) (x
 /-! ### Kotlin -/
 
 /-- the line `write_imports` (kotlin.rs) prints for one imported type: the type is named with the
-configured prefix, as the other module defines it (`fix:` commit abe0590) -/
+configured prefix, as the other module defines it (`fix:` commit 8dc01bf) -/
 def ktImportLine (cfg : Lang.Kotlin.Cfg) (crate ty : Str) : Str :=
   s%"import " ++ cfg.package ++ s%"." ++ crate ++ s%"." ++ cfg.pfx ++ ty ++ Lang.nl
 
